@@ -5,12 +5,16 @@ package gitlab
 // StateEvents iterators (paging), SortedEvents, ensureIssue and ensureIssueEvent are
 // executed; only the four go-gitlab client calls are redirected (text substitution in the
 // overlay copy of gitlab_api.go) to the tracker model below, which pages with one element
-// per page and fails the request with the chosen index, either with an HTTP error response
+// per page and fails the chosen request (identified by kind, issue and page, since the
+// iterators of one issue run concurrently), either with an HTTP error response
 // or with no response at all (transport failure), as go-gitlab does.
 
 import (
 	"context"
 	"errors"
+	"fmt"
+	"sort"
+	"sync"
 	"time"
 
 	"github.com/xanzy/go-gitlab"
@@ -25,17 +29,30 @@ type vhTracker struct {
 	notes    map[int][]*gitlab.Note
 	labels   map[int][]*gitlab.LabelEvent
 	states   map[int][]*gitlab.StateEvent
-	requests int
-	failAt   int  // request index that fails, -1: none
+	mu       sync.Mutex
+	requests []string // identities of the requests served, e.g. "notes:5:2"
+	failOn   string   // identity of the request that fails (once), "": none
+	failed   bool
 	noResp   bool // the failing request yields no response object (transport failure)
 }
 
 var vhT *vhTracker
 
-func (t *vhTracker) begin() (fail bool) {
-	idx := t.requests
-	t.requests++
-	return idx == t.failAt
+// begin registers a request by its identity (kind, issue, page) - not by its position in
+// time: the iterators of one issue run concurrently, their order is not fixed.
+func (t *vhTracker) begin(kind string, iid, page int) (fail bool) {
+	t.mu.Lock()
+	defer t.mu.Unlock()
+	if page < 1 {
+		page = 1
+	}
+	id := fmt.Sprintf("%s:%d:%d", kind, iid, page)
+	t.requests = append(t.requests, id)
+	if id == t.failOn && !t.failed {
+		t.failed = true
+		return true
+	}
+	return false
 }
 
 func (t *vhTracker) failure() (*gitlab.Response, error) {
@@ -55,7 +72,7 @@ func vhPage(n, page int) (idx int, resp *gitlab.Response) {
 
 func vhListProjectIssues(pid string, opts *gitlab.ListProjectIssuesOptions) ([]*gitlab.Issue, *gitlab.Response, error) {
 	t := vhT
-	if t.begin() {
+	if t.begin("issues", 0, opts.Page) {
 		resp, err := t.failure()
 		return nil, resp, err
 	}
@@ -68,7 +85,7 @@ func vhListProjectIssues(pid string, opts *gitlab.ListProjectIssuesOptions) ([]*
 
 func vhListIssueNotes(pid interface{}, iid int, opts *gitlab.ListIssueNotesOptions) ([]*gitlab.Note, *gitlab.Response, error) {
 	t := vhT
-	if t.begin() {
+	if t.begin("notes", iid, opts.Page) {
 		resp, err := t.failure()
 		return nil, resp, err
 	}
@@ -81,7 +98,7 @@ func vhListIssueNotes(pid interface{}, iid int, opts *gitlab.ListIssueNotesOptio
 
 func vhListLabelEvents(pid interface{}, iid int, opts *gitlab.ListLabelEventsOptions) ([]*gitlab.LabelEvent, *gitlab.Response, error) {
 	t := vhT
-	if t.begin() {
+	if t.begin("labels", iid, opts.Page) {
 		resp, err := t.failure()
 		return nil, resp, err
 	}
@@ -94,7 +111,7 @@ func vhListLabelEvents(pid interface{}, iid int, opts *gitlab.ListLabelEventsOpt
 
 func vhListStateEvents(pid interface{}, iid int, opts *gitlab.ListStateEventsOptions) ([]*gitlab.StateEvent, *gitlab.Response, error) {
 	t := vhT
-	if t.begin() {
+	if t.begin("states", iid, opts.Page) {
 		resp, err := t.failure()
 		return nil, resp, err
 	}
@@ -130,7 +147,7 @@ func (t *vhTracker) addState(iid, id int, state string, at int64) {
 }
 
 func vhNewTracker() *vhTracker {
-	t := &vhTracker{notes: map[int][]*gitlab.Note{}, labels: map[int][]*gitlab.LabelEvent{}, states: map[int][]*gitlab.StateEvent{}, failAt: -1}
+	t := &vhTracker{notes: map[int][]*gitlab.Note{}, labels: map[int][]*gitlab.LabelEvent{}, states: map[int][]*gitlab.StateEvent{}}
 	t.addIssue(5, "first issue", "text of the first  \r\n", 0)
 	t.addNote(5, 100, "a comment", 10)
 	t.addLabel(5, 101, "add", "bug", 20)
@@ -199,7 +216,10 @@ func VH_C16_rounds() {
 	giRef := &gitlabImporter{conf: conf}
 	rt.Assert(!vhRound(giRef, rcRef), "clean-import-reports-no-error")
 	want := vhState(rcRef)
-	total := t.requests
+	// the requests of a clean round, as a set of identities
+	served := append([]string{}, t.requests...)
+	sort.Strings(served)
+	total := len(served)
 	rt.Assert(len(want) == 2, "reference-imports-both-issues")
 
 	// the run under test
@@ -207,10 +227,10 @@ func VH_C16_rounds() {
 	rc, err := cache.NewRepoCacheNoEvents(fx.Repo)
 	rt.Assume(err == nil)
 	gi := &gitlabImporter{conf: conf}
-	t.requests = 0
+	t.requests = nil
 	f := rt.Choose(total + 1)
 	if f < total {
-		t.failAt = f
+		t.failOn = served[f]
 		t.noResp = rt.Choose(2) == 1
 		rt.Cover("failure-injected")
 		if t.noResp {
@@ -225,7 +245,7 @@ func VH_C16_rounds() {
 	if panicked {
 		return
 	}
-	if t.failAt >= 0 {
+	if t.failOn != "" {
 		// otherwise the bridge would store the cursor and never list the missed issues again
 		rt.Assert(reported, "api-failure-reported")
 	} else {
@@ -233,7 +253,7 @@ func VH_C16_rounds() {
 	}
 
 	// a subsequent clean run ends in the same bugs as an import that never failed
-	t.failAt = -1
+	t.failOn = ""
 	rt.Assert(!vhRound(gi, rc), "clean-round-reports-no-error")
 	got := vhState(rc)
 	rt.Assert(len(got) == len(want), "same-bugs-as-never-failed-import")
